@@ -154,10 +154,16 @@ func TestProp(t *testing.T) {
 	if !schedSelfTest(r) {
 		return
 	}
-	monitorCoop(r)
-	monitorStress(r)
-	monitorHistories(t, r)
-	monitorVerifyPath(t, r)
+	phase := func(name string, f func()) {
+		t0 := time.Now()
+		f()
+		r.Count("phase_seconds_"+name, int64(time.Since(t0).Seconds()+0.5))
+		fmt.Fprintf(os.Stderr, "C02 phase %s: %.1fs\n", name, time.Since(t0).Seconds())
+	}
+	phase("cooperative_schedules", func() { monitorCoop(r) })
+	phase("stress", func() { monitorStress(r) })
+	phase("sequential_histories", func() { monitorHistories(t, r) })
+	phase("verifyapreq_histories", func() { monitorVerifyPath(t, r) })
 	r.Require("coop_schedules", 100)
 	r.Require("coop_histories_ok", 100)
 	r.Require("stress_trials", 10000)
@@ -350,7 +356,7 @@ func randomYield(string) {
 func monitorStress(r *vh.Run) {
 	trials := 200000
 	if vh.Thorough() {
-		trials = 5000000
+		trials = 2000000
 	}
 	_, ns := vh.Shard()
 	trials /= ns
